@@ -120,7 +120,8 @@ type c03Rule struct {
 	Bt      bool       `json:"bt"`
 }
 
-// Style: http (request line), fwd (X-Forwarded-Uri/-Method/-Host/-Proto), envoy (CheckRequest)
+// Style: http (request line), fwd (X-Forwarded-Uri/-Method/-Host/-Proto), envoy (CheckRequest),
+// direct (heimdall.Request built with url.Parse, no entry point: the only way to a view without RawPath)
 type c03Req struct {
 	Style  string `json:"style"`
 	Method string `json:"method"`
@@ -265,6 +266,16 @@ type c03ReqObs struct {
 	Caps     [][2]string `json:"caps,omitempty"`
 	Rejected bool        `json:"rejected"` // Execute refused the request for an encoded slash
 	Err      string      `json:"err,omitempty"`
+	// the same request served by an instance of the rule set that has seen no request before
+	Fresh *c03FreshObs `json:"fresh,omitempty"`
+}
+
+type c03FreshObs struct {
+	Calls    []c03Call   `json:"calls"`
+	Result   string      `json:"result"`
+	Rule     int         `json:"rule"`
+	Caps     [][2]string `json:"caps,omitempty"`
+	Rejected bool        `json:"rejected"`
 }
 
 type c03Oracle struct {
@@ -318,8 +329,26 @@ func (r *c03RecRoute) Matches(ctx heimdall.Context, keys, values []string) (res 
 
 // the real request contexts, used as they are: FindRule, Execute and the pipeline each call
 // ctx.Request() themselves, so a context that hands out a fresh view per call loses the captures
+// a request view handed to the rules directly, as the repository's own tests and any other caller of
+// rule.Repository do: url.Parse sets RawPath only if the text is not the default encoding of the path, so
+// "/x/%41" gives RawPath "/x/%41" while "/x/%2541" gives Path "/x/%41" and NO RawPath
+type c03DirectCtx struct {
+	heimdall.Context
+	req *heimdall.Request
+}
+
+func (c *c03DirectCtx) Request() *heimdall.Request  { return c.req }
+func (c *c03DirectCtx) AppContext() context.Context { return context.Background() }
+
 func c03Context(q c03Req) (heimdall.Context, bool) {
 	switch q.Style {
+	case "direct":
+		uri, err := url.Parse(q.Scheme + "://" + q.Host + q.Target)
+		if err != nil || uri.Host != q.Host {
+			return nil, false
+		}
+
+		return &c03DirectCtx{req: &heimdall.Request{Method: q.Method, URL: &heimdall.URL{URL: *uri}}}, true
 	case "envoy":
 		hr := &envoy_auth.AttributeContext_HttpRequest{Method: q.Method, Scheme: q.Scheme, Host: q.Host, Path: q.Target}
 		rc := grpcv3.NewRequestContext(context.Background(), &envoy_auth.CheckRequest{
@@ -460,36 +489,36 @@ func c03Candidates(lp string) []string {
 	return out
 }
 
-func c03Run(c c03Case) (obs c03Obs) {
-	obs.Compiles = map[string]bool{}
+// one instance of the rule set: the real factory, the real rules (wrapped by the recorder), the real repository
+type c03Instance struct {
+	repo rule.Repository
+	log  *[]c03Call
+}
 
+// c03Build creates the rules of the case anew (new matcher instances) and loads them into a new repository
+func c03Build(c c03Case) (inst *c03Instance, load, errText string) {
 	f, err := NewRuleFactory(c03Factory{}, &config.Configuration{}, config.DecisionMode, zerolog.Nop())
 	if err != nil {
 		panic(err)
 	}
 
 	repo := newRepository(f)
+	log := &[]c03Call{}
 
 	var (
 		rules []rule.Rule
-		log   []c03Call
 		vid   int
-		slash []string
 	)
 
 	var parsed *config2.RuleSet
 
 	if c.Via == "json" {
 		if parsed, err = config2.ParseRules("application/json", strings.NewReader(string(c03RuleSetText(c))), false); err != nil {
-			obs.Load, obs.Err = "create_failed", "parse: "+err.Error()
-
-			return obs
+			return nil, "create_failed", "parse: " + err.Error()
 		}
 
 		if len(parsed.Rules) != len(c.Rules) {
-			obs.Load, obs.Err = "create_failed", "parse: rules lost"
-
-			return obs
+			return nil, "create_failed", "parse: rules lost"
 		}
 	}
 
@@ -528,17 +557,14 @@ func c03Run(c c03Case) (obs c03Obs) {
 
 		created, err := f.CreateRule("1alpha4", src, rc)
 		if err != nil {
-			obs.Load, obs.Err = "create_failed", err.Error()
-
-			return obs
+			return nil, "create_failed", err.Error()
 		}
 
 		ri := created.(*ruleImpl) //nolint:forcetypeassert
 		wr := &c03RecRule{ruleImpl: ri}
 
 		for _, rt := range ri.Routes() {
-			wr.wrapped = append(wr.wrapped, &c03RecRoute{inner: rt, vid: vid, log: &log})
-			slash = append(slash, r.Slash)
+			wr.wrapped = append(wr.wrapped, &c03RecRoute{inner: rt, vid: vid, log: log})
 			vid++
 		}
 
@@ -551,18 +577,81 @@ func c03Run(c c03Case) (obs c03Obs) {
 	}
 
 	if err := repo.AddRuleSet("src", first); err != nil {
-		obs.Load, obs.Err = "add_failed", err.Error()
-
-		return obs
+		return nil, "add_failed", err.Error()
 	}
 
 	if len(first) < len(rules) {
 		if err := repo.AddRuleSet("src2", rules[len(first):]); err != nil {
-			obs.Err = "second rule set refused: " + err.Error()
+			errText = "second rule set refused: " + err.Error()
 		}
 	}
 
-	obs.Load = "loaded"
+	return &c03Instance{repo: repo, log: log}, "loaded", errText
+}
+
+// c03Serve looks the request up in the instance and executes the rule found
+func c03Serve(inst *c03Instance, q c03Req) (ro c03ReqObs, ok bool) {
+	ctx, ok := c03Context(q)
+	if !ok {
+		return ro, false
+	}
+
+	req := ctx.Request()
+	ro = c03ReqObs{View: c03View{req.Method, req.URL.Scheme, req.URL.Host, req.URL.Path, req.URL.RawPath}}
+	*inst.log = nil
+
+	func() {
+		defer func() {
+			if p := recover(); p != nil {
+				ro.Result, ro.Err = "panic", fmt.Sprint(p)
+			}
+		}()
+
+		found, err := inst.repo.FindRule(ctx)
+		if err != nil {
+			ro.Result = "none"
+
+			return
+		}
+
+		ro.Result = "rule"
+		fmt.Sscanf(found.ID(), "r%d", &ro.Rule)
+
+		c03Seen = nil
+
+		if _, err = found.Execute(ctx); err != nil {
+			if !errors.Is(err, heimdall.ErrArgument) {
+				panic(err)
+			}
+
+			ro.Rejected = true
+		}
+
+		if c03Seen != nil { // what the pipeline saw
+			ro.Caps = *c03Seen
+		} else { // the pipeline was not reached (request refused for an encoded slash)
+			for k, v := range ctx.Request().URL.Captures {
+				ro.Caps = append(ro.Caps, [2]string{k, v})
+			}
+		}
+
+		sort.Slice(ro.Caps, func(i, j int) bool { return ro.Caps[i][0] < ro.Caps[j][0] })
+	}()
+
+	ro.Calls = *inst.log
+
+	return ro, true
+}
+
+func c03Run(c c03Case) (obs c03Obs) {
+	obs.Compiles = map[string]bool{}
+
+	inst, load, errText := c03Build(c)
+	obs.Load, obs.Err = load, errText
+
+	if inst == nil {
+		return obs
+	}
 
 	seen := map[string]bool{}
 	ask := func(host bool, tm c03TM, vals []string) {
@@ -582,27 +671,34 @@ func c03Run(c c03Case) (obs c03Obs) {
 		}
 	}
 
+	// ALL requests of the case go, one after the other, through the SAME instance (same matcher objects, same
+	// repository); each is additionally served by an instance built anew, which has seen no request before
 	for _, q := range c.Reqs {
-		ctx, ok := c03Context(q)
+		ro, ok := c03Serve(inst, q)
 		if !ok {
 			obs.Skipped++
 
 			continue
 		}
 
-		req := ctx.Request()
-		ro := c03ReqObs{View: c03View{req.Method, req.URL.Scheme, req.URL.Host, req.URL.Path, req.URL.RawPath}}
+		fresh, _, _ := c03Build(c)
+		if fresh == nil {
+			panic("the rule set of the case could not be built a second time")
+		}
 
-		lp := req.URL.Path
-		if req.URL.RawPath != "" {
-			lp = req.URL.RawPath
+		fo, _ := c03Serve(fresh, q)
+		ro.Fresh = &c03FreshObs{Calls: fo.Calls, Result: fo.Result, Rule: fo.Rule, Caps: fo.Caps, Rejected: fo.Rejected}
+
+		lp := ro.View.Path
+		if ro.View.RawPath != "" {
+			lp = ro.View.RawPath
 		}
 
 		cand := c03Candidates(lp)
 
 		for _, r := range c.Rules {
 			for _, h := range r.Hosts {
-				ask(true, h, []string{req.URL.Host})
+				ask(true, h, []string{ro.View.Host})
 			}
 
 			for _, rt := range r.Routes {
@@ -612,47 +708,6 @@ func c03Run(c c03Case) (obs c03Obs) {
 			}
 		}
 
-		log = nil
-
-		func() {
-			defer func() {
-				if p := recover(); p != nil {
-					ro.Result, ro.Err = "panic", fmt.Sprint(p)
-				}
-			}()
-
-			found, err := repo.FindRule(ctx)
-			if err != nil {
-				ro.Result = "none"
-
-				return
-			}
-
-			ro.Result = "rule"
-			fmt.Sscanf(found.ID(), "r%d", &ro.Rule)
-
-			c03Seen = nil
-
-			if _, err = found.Execute(ctx); err != nil {
-				if !errors.Is(err, heimdall.ErrArgument) {
-					panic(err)
-				}
-
-				ro.Rejected = true
-			}
-
-			if c03Seen != nil { // what the pipeline saw
-				ro.Caps = *c03Seen
-			} else { // the pipeline was not reached (request refused for an encoded slash)
-				for k, v := range ctx.Request().URL.Captures {
-					ro.Caps = append(ro.Caps, [2]string{k, v})
-				}
-			}
-
-			sort.Slice(ro.Caps, func(i, j int) bool { return ro.Caps[i][0] < ro.Caps[j][0] })
-		}()
-
-		ro.Calls = log
 		obs.Reqs = append(obs.Reqs, ro)
 	}
 
@@ -716,15 +771,11 @@ func c03CoqRule(r c03Rule) string {
 		c03CoqSlash(r.Slash), vf.CoqBool(r.Bt))
 }
 
-func c03CoqReq(o c03ReqObs) string {
-	q := vf.CoqApp("rq", vf.CoqStr(o.View.Method), vf.CoqStr(o.View.Scheme), vf.CoqStr(o.View.Host),
-		vf.CoqStr(o.View.Path), vf.CoqStr(o.View.RawPath))
-	calls := vf.CoqListOf(o.Calls, func(c c03Call) string {
+func c03CoqCallsOut(o c03ReqObs) (calls, out string) {
+	calls = vf.CoqListOf(o.Calls, func(c c03Call) string {
 		return vf.CoqApp("cl", vf.CoqNat(c.Vid), vf.CoqStrs(c.Keys), vf.CoqStrs(c.Vals),
 			map[string]string{"yes": "MYes", "no": "MNo", "panic": "MPanic"}[c.Res])
 	})
-
-	var out string
 
 	switch o.Result {
 	case "panic":
@@ -737,7 +788,22 @@ func c03CoqReq(o c03ReqObs) string {
 		}), vf.CoqBool(o.Rejected))
 	}
 
-	return vf.CoqApp("ro", q, calls, out)
+	return calls, out
+}
+
+func c03CoqReq(o c03ReqObs) string {
+	q := vf.CoqApp("rq", vf.CoqStr(o.View.Method), vf.CoqStr(o.View.Scheme), vf.CoqStr(o.View.Host),
+		vf.CoqStr(o.View.Path), vf.CoqStr(o.View.RawPath))
+	calls, out := c03CoqCallsOut(o)
+
+	fresh := "None"
+	if o.Fresh != nil {
+		fcalls, fout := c03CoqCallsOut(c03ReqObs{Calls: o.Fresh.Calls, Result: o.Fresh.Result, Rule: o.Fresh.Rule,
+			Caps: o.Fresh.Caps, Rejected: o.Fresh.Rejected})
+		fresh = "(Some " + vf.CoqPair(fcalls, fout) + ")"
+	}
+
+	return vf.CoqApp("ro", q, calls, out, fresh)
 }
 
 func c03Coq(c c03Case, o c03Obs) string {
@@ -1155,6 +1221,8 @@ func c03Gen(r *vf.Rand) c03Case {
 			q.Style = "envoy"
 		case x < 30:
 			q.Style = "fwd"
+		case x < 42:
+			q.Style = "direct"
 		}
 
 		q.Method = vf.Pick(r, c03ReqMeths[:3+r.Intn(len(c03ReqMeths)-2)])
@@ -1162,6 +1230,27 @@ func c03Gen(r *vf.Rand) c03Case {
 		q.Host = vf.Pick(r, c03ReqHosts[:2+r.Intn(len(c03ReqHosts)-1)])
 		q.Target = c03GenTarget(r, exprs, q.Style)
 		c.Reqs = append(c.Reqs, q)
+	}
+
+	// history: the requests of a case go one after the other through the same matcher instances.  Make the same
+	// captured TEXT arrive once from a view with RawPath (still encoded) and once from a view without (already
+	// decoded, the client had sent %25..), in both orders and interleaved - a verdict must not outlive its request
+	if len(c.Reqs) > 0 && r.Chance(45) {
+		base := vf.Pick(r, c.Reqs)
+
+		t := base.Target
+		if !strings.Contains(t, "%") {
+			t = c03Reencode(r, t, 60)
+		}
+
+		a := c03Req{Style: vf.Pick(r, []string{"direct", "direct", "http", "fwd"}), Method: base.Method, Scheme: base.Scheme,
+			Host: base.Host, Target: t}
+		b := c03Req{Style: "direct", Method: base.Method, Scheme: base.Scheme, Host: base.Host,
+			Target: strings.ReplaceAll(t, "%", "%25")}
+
+		seq := vf.Pick(r, [][]c03Req{{a, b}, {b, a}, {a, b, a}, {b, a, b}, {a, a, b, b, a}})
+		at := r.Intn(len(c.Reqs) + 1)
+		c.Reqs = append(c.Reqs[:at], append(append([]c03Req{}, seq...), c.Reqs[at:]...)...)
 	}
 
 	if c03ParserAccepts(c) && r.Chance(50) {
@@ -1211,6 +1300,22 @@ func c03Corpus() []c03Case {
 				{Routes: []c03Route{{Path: "/:b/*c"}}, Methods: []string{"POST"}},
 			},
 			Reqs: []c03Req{rq("GET", "a.com", "/1/2/3")},
+		},
+		// history independence: the same captured text %41 from a view with RawPath (segment A) and from one
+		// without (the client sent %2541, the segment is the three bytes %41), through the same matcher instance
+		{
+			Rules: []c03Rule{
+				{Routes: []c03Route{{Path: "/files/:name", Params: []c03Param{ex("name", "A")}}}},
+				{Routes: []c03Route{{Path: "/nd/:name", Params: []c03Param{ex("name", "a/b")}}}, Slash: "on"},
+			},
+			Reqs: []c03Req{
+				{Style: "direct", Method: "GET", Scheme: "http", Host: "a.com", Target: "/files/%41"},
+				{Style: "direct", Method: "GET", Scheme: "http", Host: "a.com", Target: "/files/%2541"},
+				{Style: "direct", Method: "GET", Scheme: "http", Host: "a.com", Target: "/files/%41"},
+				{Style: "direct", Method: "GET", Scheme: "http", Host: "a.com", Target: "/nd/a%252Fb"},
+				{Style: "http", Method: "GET", Scheme: "http", Host: "a.com", Target: "/nd/a%2Fb"},
+				{Style: "direct", Method: "GET", Scheme: "http", Host: "a.com", Target: "/nd/a%252Fb"},
+			},
 		},
 		// C03-F4: exclusion without ALL
 		{
@@ -1363,11 +1468,33 @@ func c03Tags(c c03Case, o c03Obs) ([]string, bool) {
 		return keys(tags), len(c.Rules) > 1
 	}
 
+	rawOf := map[string]map[bool]bool{} // lookup path text -> seen with RawPath / without
+
+	for _, q := range o.Reqs {
+		lpt := q.View.RawPath
+		if lpt == "" {
+			lpt = q.View.Path
+		}
+
+		if rawOf[lpt] == nil {
+			rawOf[lpt] = map[bool]bool{}
+		}
+
+		rawOf[lpt][q.View.RawPath != ""] = true
+		if len(rawOf[lpt]) == 2 && strings.Contains(lpt, "%") {
+			tags["history:same-text-with-and-without-rawpath"] = true
+		}
+	}
+
 	for _, q := range o.Reqs {
 		tags["out:"+q.Result] = true
 
 		if len(q.Calls) > 0 {
 			tags["site:matcher.Match"] = true
+		}
+
+		if q.View.RawPath == "" {
+			tags["view:no-rawpath"] = true
 		}
 
 		if len(q.Calls) >= 2 {
